@@ -100,6 +100,8 @@ struct Program
     std::function<OrangeInput()> make;
     bool navigate = true;
     std::vector<std::string> extra_tags;
+    std::string source_file;  // bundled file the input is read from (family file)
+    int nav_per_class = 0;  // >0: navigate only this many programs per structure class
 };
 
 //---------------------------------------------------------------------------//
@@ -130,6 +132,7 @@ inline void add_file_programs(std::vector<Program>& out, vf::Run& R)
             std::string const path = (fs::path(repo) / sub / n).string();
             Program p;
             p.id = fmt("file:%s/%s", sub, n.c_str());
+            p.source_file = path;
             // legacy-format reader branches, read off the raw text
             {
                 std::ifstream f(path);
